@@ -587,3 +587,12 @@ CHECKS["C33"] = {
 
 CHECKS["C34"]["explanation"] += " Go worker (gosym): one AsyncBlockRunner.run through the real storagecommon.Iterate, systemstore.Ledgers().Paginate, PaginatedResourceRepository and cursor encoding, on tables of 3, 17 and 31 ledgers (1, 2 and 3 pages of the default page size) whose ledgers at the interesting positions (first, around the page boundaries, last) are, by choice, in use / still 'initializing' (imported or never written) / not ASYNC / deleted: create_blocks is called exactly once for every listed ASYNC ledger, in that ledger's bucket, with the configured block size, and for no other ledger."
 CHECKS["C34"]["bounds"]["quick"] += "; worker: 3 / 17 / 31 ledgers, 4-way choice for 3-4 of them"
+
+# the real Store.CommitTransaction's move list (shared harness with C03): the move inserted last for a pair carries the final volumes
+for _p in ("C01", "C05"):
+    CHECKS[_p]["units"].append(unit("./internal/storage/ledger", ["storage/c03.go"], "^Harness_C03_Commit_p(1|2)$", QT, swaps=STORE_SWAPS, flags={"labels": "^%s:" % _p, "max-decisions": 3000}))
+    CHECKS[_p]["explanation"] += " Go link to the insertion-date PIT reads: the real (*Store).CommitTransaction hands its moves to the INSERT in an order in which the LAST move of every (account, asset) records the volumes the transaction leaves behind (seq follows the row order; the reads take the greatest seq)."
+
+CHECKS["C09"]["units"].append(unit("./internal/storage/ledger", ["storage/bunhook.go", "storage/c10.go"], "^Harness_C10_", QT, flags={"labels": "^(C09:|no-panic)", "max-decisions": 4000}, reach=["end"]))
+CHECKS["C09"]["explanation"] += " Stored bytes (shared harness with C10): the memento the real InsertLog hands to its INSERT — which the database hashes verbatim — hashes, inside the SQL framing, to what Log.ComputeHash computes for the same log, for payloads of every log type with symbolic free-text fields (so also text that JSON encoders may or may not escape)."
+CHECKS["C09"]["outside"] = CHECKS["C09"]["outside"].replace("the hash value itself (opaque in the model: predecessor id only)", "the hash value in the concurrent model (opaque: predecessor id only; the stored bytes of a single log are covered)")
